@@ -467,7 +467,7 @@ func TestVerif_C26_Kill(t *testing.T) {
 		}
 	}
 	rec := vstat.New(t, "C26", "kill",
-		"a child process runs a generated sequence of 3..25 enqueue/deleteRange/consume/reopen ops on an on-disk Queue in lock-step with the parent (one op per line, one ack per op); after k acknowledged ops (k generated) the parent releases op k+1 and SIGKILLs the child after 0..2000us; the queue is then reopened in the parent: its state must equal the model after k ops or after k+1 ops (queries), and the full emission must be exactly that state's items in index order; then the duplicate rule is probed (enqueue at the highest-ever index is ignored, highest+1 is accepted); non-trivial = the acknowledged prefix contains a stored enqueue and a delete and the in-flight op is a mutation; distinct by op sequence + k")
+		"a child process runs a generated sequence of 3..25 enqueue/deleteRange/consume/reopen ops on an on-disk Queue in lock-step with the parent (one op per line, one ack per op); after k acknowledged ops (k generated) the parent releases the next 1..6 ops without waiting for acks and SIGKILLs the child after 0..8000us; the queue is then reopened in the parent: its state must equal the model after k+j ops for some 0<=j<=released (queries), and the full emission must be exactly that state's items in index order; then the duplicate rule is probed (enqueue at the highest-ever index is ignored, highest+1 is accepted); non-trivial = the acknowledged prefix contains a stored enqueue and a delete and a released op is a mutation; distinct by op sequence + k")
 	rapid.Check(t, func(rt *rapid.T) {
 		dir, err := os.MkdirTemp("", "c26k-")
 		if err != nil {
@@ -496,13 +496,18 @@ func TestVerif_C26_Kill(t *testing.T) {
 			states = append(states, m.clone())
 		}
 		k := rapid.IntRange(0, nOps-1).Draw(rt, "acked")
-		killDelay := time.Duration(rapid.SampledFrom([]int{0, 0, 20, 50, 100, 200, 500, 1000, 2000}).Draw(rt, "killDelayUs")) * time.Microsecond
+		killDelay := time.Duration(rapid.SampledFrom([]int{0, 50, 100, 200, 500, 1000, 2000, 4000, 8000}).Draw(rt, "killDelayUs")) * time.Microsecond
+		// burst: number of ops released without waiting for their acks before the kill
+		burst := rapid.IntRange(1, 6).Draw(rt, "burst")
+		if burst > nOps-k {
+			burst = nOps - k
+		}
 		var trace []string
 		for i, op := range ops {
 			if i == k {
 				trace = append(trace, "|kill-during:")
 			}
-			if i > k {
+			if i >= k+burst {
 				break
 			}
 			trace = append(trace, op.String())
@@ -575,7 +580,9 @@ func TestVerif_C26_Kill(t *testing.T) {
 				return
 			}
 		}
-		send(ops[k])
+		for i := k; i < k+burst; i++ {
+			send(ops[i])
+		}
 		if killDelay > 0 {
 			time.Sleep(killDelay)
 		}
@@ -589,17 +596,20 @@ func TestVerif_C26_Kill(t *testing.T) {
 		}
 		defer q.Close()
 		var final *c26Model
-		sigA, msgA := c26SameState(q, states[k])
-		if sigA == "" {
-			final = states[k].clone()
-		} else if sigB, _ := c26SameState(q, states[k+1]); sigB == "" {
-			final = states[k+1].clone()
-		} else {
-			sig := sigA
-			if len(states[k].items) > q.Len() {
+		took := -1
+		_, msgA := c26SameState(q, states[k])
+		for j := k; j <= k+burst; j++ {
+			if sig, _ := c26SameState(q, states[j]); sig == "" {
+				final, took = states[j].clone(), j-k
+				break
+			}
+		}
+		if final == nil {
+			sig := "C26/state-after-kill-unexplained"
+			if len(states[k].items) > q.Len() && len(states[k+burst].items) > q.Len() {
 				sig = "C26/acked-item-lost"
 			}
-			fail(sig, "state after kill matches neither the model after %d acknowledged ops (%s: %s) nor after the in-flight op (%s)", k, states[k], msgA, states[k+1])
+			fail(sig, "state after kill (Len=%d) matches none of the model states after %d acknowledged ops plus 0..%d released ops; after acked ops: %s (%s); after all released ops: %s", q.Len(), k, burst, states[k], msgA, states[k+burst])
 		}
 		final.nextFrom = 0
 		// the two candidate states can have equal queries but different data: emission decides
@@ -642,14 +652,17 @@ func TestVerif_C26_Kill(t *testing.T) {
 				hasDel = true
 			}
 		}
-		mut := ops[k].Kind == "enq" || ops[k].Kind == "del"
+		mut := false
+		for i := k; i < k+burst; i++ {
+			if ops[i].Kind == "enq" || ops[i].Kind == "del" {
+				mut = true
+			}
+		}
 		rec.Case(hasEnq && hasDel && mut, canon+fmt.Sprintf(" delay=%v", killDelay))
 		rec.Sample(canon)
-		rec.Label("inflight-" + ops[k].Kind)
-		if final.highest == states[k+1].highest && len(final.items) == len(states[k+1].items) && (states[k].highest != states[k+1].highest || len(states[k].items) != len(states[k+1].items)) {
-			rec.Label("inflight-op-took-effect")
-		} else if states[k].highest != states[k+1].highest || len(states[k].items) != len(states[k+1].items) {
-			rec.Label("inflight-op-lost")
+		rec.Label(fmt.Sprintf("released-ops-that-took-effect=%d-of-%d", took, burst))
+		if took > 0 && took < burst {
+			rec.Label("killed-between-released-ops")
 		}
 	})
 }
